@@ -189,4 +189,25 @@ theorem ec_decode_exact_production (es ds : Bool) (he : genEncStrict = some es) 
 /-- the operators in the source today do differ, so the exclusion is not vacuous -/
 theorem guards_differ_today : genEncStrict = some true ∧ genDecStrict = some false := by decide
 
+
+/-! ### rebuilding lost shards (relative to the MDS assumption on Reed–Solomon, see prop.json trusted_base) -/
+
+/-- any set of at most `m` lost shards is regenerated byte-identically: over every range of columns in
+    which the 14 shards are codewords (which is what `encode` produces), the Reconstruct step of
+    rebuildEcFiles returns exactly the original columns, whatever shards were erased -/
+theorem ec_rebuild (cd : Codec) (k m : Nat) (hmds : MDS cd k m)
+    (shards : List (List Nat)) (mask : List Bool)
+    (hmask : mask.length = k + m) (hlost : (mask.filter (· == false)).length ≤ m)
+    (start cnt : Nat) (hcw : ∀ p, start ≤ p → p < start + cnt → IsCodewordAt cd k m shards p) :
+    reconChunk cd (eraseShards shards mask) start cnt
+      = some ((List.range cnt).map fun t => columnAt shards (start + t)) :=
+  reconChunk_codewords cd k m hmds shards mask hmask hlost cnt start hcw
+
+/-- the MDS hypothesis is satisfiable (a 2-fold repetition code: k = 1, m = 1) -/
+example : MDS { parity := fun d => d, recon := fun c => some (let x := (c.filterMap id).headD 0; c.map fun _ => x) } 1 1 := by
+  intro data mask hd _ hm hl
+  match data, mask, hd, hm with
+  | [x], [b0, b1], _, _ =>
+    cases b0 <;> cases b1 <;> simp_all [List.filter]
+
 end SwV.Props.C06
